@@ -16,6 +16,7 @@ Record o_case := mkOCase {
   k_prev  : prev_in;
   k_out   : option (list nat * list (list proposal));   (* observed outcome; None = Outcome returned an error *)
   k_len   : N;                           (* len(outcome bytes) *)
+  k_nrep  : N;                           (* number of reports a fresh instance (default off-chain config) builds from the outcome *)
   k_det   : bool                         (* all evaluations (instances x repetitions) byte-identical *)
 }.
 
@@ -152,6 +153,7 @@ Definition K03 (k : o_case) : bool :=
   | None, _ => true
   | Some _, None => false
   | Some _, Some o => outcome_rules_b (k_utgf k) (k_wgf k) o && (Z.of_N (k_len k) <=? MaxOutcomeLength)%Z
+                      && (Z.of_N (k_nrep k) <=? MaxReportCount)%Z
   end.
 
 (* C05 *)
